@@ -204,8 +204,10 @@ fn prints_as_int(t: &T) -> Option<i128> {
 pub fn flaws(t: &T, out: &mut Vec<&'static str>) {
     match t {
         T::Name(n) => {
-            if irregular_name(n) {
-                out.push("name-irregular")
+            // names are #XX-escaped since fix_name_escape: white space, delimiters, '#' are no flaw any more;
+            // what is left is the reader's one-char-per-byte String for non-ASCII names
+            if !n.is_ascii() {
+                out.push("name-nonascii")
             }
         }
         T::Real(f) => {
@@ -238,8 +240,8 @@ pub fn flaws(t: &T, out: &mut Vec<&'static str>) {
         }
         T::Dict(l) => {
             for (k, v) in l {
-                if irregular_name(k) {
-                    out.push("name-irregular")
+                if !k.is_ascii() {
+                    out.push("name-nonascii")
                 }
                 flaws(v, out)
             }
@@ -286,6 +288,36 @@ pub fn gen_regular_name(r: &mut Rng) -> String {
         }
     }
     s
+}
+/// any name: one third with white space / a delimiter / '#' (escaped by the writer since fix_name_escape)
+pub fn gen_any_name(r: &mut Rng) -> String {
+    if r.chance(1, 3) {
+        gen_irregular_name(r)
+    } else {
+        gen_regular_name(r)
+    }
+}
+/// remove every non-ASCII char from the names of a tree (dictionary keys that collide afterwards are dropped)
+pub fn ascii_names_only(t: &mut T) {
+    match t {
+        T::Name(n) => n.retain(|c| c.is_ascii()),
+        T::Arr(l) => l.iter_mut().for_each(ascii_names_only),
+        T::Dict(l) => {
+            let mut seen: Vec<String> = vec![];
+            let mut out = vec![];
+            for (mut k, mut v) in l.drain(..) {
+                k.retain(|c| c.is_ascii());
+                if seen.contains(&k) {
+                    continue;
+                }
+                seen.push(k.clone());
+                ascii_names_only(&mut v);
+                out.push((k, v));
+            }
+            *l = out;
+        }
+        _ => {}
+    }
 }
 pub fn gen_irregular_name(r: &mut Rng) -> String {
     let mut s = gen_regular_name(r);
@@ -362,7 +394,7 @@ fn gen_atom(r: &mut Rng) -> T {
             let n = r.range(0, 20) as usize;
             T::Hex(r.bytes(n))
         }
-        11..=13 => T::Name(gen_regular_name(r)),
+        11..=13 => T::Name(gen_any_name(r)),
         _ => {
             let hi = if r.chance(1, 4) { 9_999_999 } else { 300 };
             let n = r.range(0, hi) as u32;
@@ -398,7 +430,7 @@ pub fn gen_tree(r: &mut Rng, depth: usize, budget: &mut usize) -> T {
             if *budget == 0 {
                 break;
             }
-            let k = gen_regular_name(r);
+            let k = gen_any_name(r);
             if l.iter().any(|(k2, _)| *k2 == k) {
                 continue;
             }
@@ -430,7 +462,12 @@ fn fix_collisions(l: &mut Vec<T>) {
 
 fn flawed_tree(r: &mut Rng, kind: &str) -> T {
     let bad = match kind {
-        "name-irregular" => T::Name(gen_irregular_name(r)),
+        "name-nonascii" => T::Name(loop {
+            let n = gen_any_name(r);
+            if !n.is_ascii() {
+                break n;
+            }
+        }),
         "real-ge-2p63" => T::Real(*r.pick(&[9223372036854775808.0, 1e19, -1e19, 1.5e30, -9223372036854777856.0, 1.7e308])),
         "objnum-gt-9999999" => T::Ref(r.range(10_000_000, u32::MAX as u64) as u32, r.range(0, 3) as u16),
         _ => T::Null,
@@ -450,7 +487,7 @@ fn flawed_tree(r: &mut Rng, kind: &str) -> T {
             fix_collisions_except(&mut l);
             T::Arr(l)
         }
-        "name-irregular" if r.chance(1, 3) => T::Dict(vec![(gen_irregular_name(r), T::Int(1)), ("Z".into(), T::Null)]),
+        "name-nonascii" if r.chance(1, 3) => T::Dict(vec![(format!("{}\u{e9}", gen_irregular_name(r)), T::Int(1)), ("Z".into(), T::Null)]),
         _ => match r.below(3) {
             0 => bad,
             1 => T::Arr(vec![T::Int(3), bad, T::Null]),
@@ -526,7 +563,7 @@ fn emit_incr(out: &mut Out, t: &T, class: &str) {
     let mut js = js_base;
     let mut fl = vec![];
     flaws(t, &mut fl);
-    fl.retain(|f| *f != "name-irregular"); // the incremental writer escapes names
+    fl.retain(|f| *f != "name-nonascii"); // same root cause, recorded for this writer as incr-nonascii-name below
     if has_nonascii_name(t) {
         fl.push("incr-nonascii-name");
     }
@@ -737,7 +774,12 @@ pub fn run(ctx: &Ctx) {
                 _ => (8, 200),
             };
             let mut budget = b;
-            let t = gen_tree(&mut r, d, &mut budget);
+            let mut t = gen_tree(&mut r, d, &mut budget);
+            // non-ASCII names are the known class name-nonascii: keep them in one tree out of four
+            if i % 4 != 3 {
+                ascii_names_only(&mut t);
+                fix_all_collisions(&mut t);
+            }
             emit_ser(&mut out, &t, &format!("wf_depth{}", depth(&t)));
         }
         // every single char as a one-char string / name (regular ones), all 256 bytes in a hex string
@@ -745,14 +787,25 @@ pub fn run(ctx: &Ctx) {
         for base in (0u32..0x180).step_by(32) {
             let chars: Vec<char> = (base..base + 32).map(|c| char::from_u32(c).unwrap()).collect();
             emit_ser(&mut out, &T::Arr(chars.iter().flat_map(|ch| [T::Str(format!("x{ch}")), T::Str(format!("{ch}"))]).collect()), "all_chars_string");
-            let names: Vec<String> = chars.iter().map(|ch| format!("N{ch}")).filter(|n| !irregular_name(n)).collect();
+            // every char as a name and as a key — ASCII ones (white space, delimiters, '#', controls included) must read back
+            let names: Vec<String> = chars.iter().map(|ch| format!("N{ch}")).collect();
             emit_ser(&mut out, &T::Dict(names.iter().map(|n| (n.clone(), T::Name(n.clone()))).collect()), "all_chars_name");
+            let names: Vec<String> = chars.iter().filter(|ch| ch.is_ascii()).flat_map(|ch| [format!("{ch}"), format!("{ch}z"), format!("a{ch}")]).collect();
+            if !names.is_empty() {
+                emit_ser(&mut out, &T::Arr(names.iter().map(|n| T::Name(n.clone())).collect()), "all_ascii_name_edges");
+            }
         }
         emit_ser(&mut out, &T::Hex((0..=255).collect()), "all_bytes_hex");
         let nf = if ctx.thorough() { 200 } else { 25 };
-        for kind in ["name-irregular", "real-ge-2p63", "objnum-gt-9999999", "int-int-nameR"] {
+        for n in ["My Image", "A#20", "A#", "#", "Im{1}", "a(b", "a)b", "x%y", "<<", "[x]", "A/B", " ", "", "()<>[]{}/%#", "a#20b#", "A#+5", "tab\there", "nl\nx", "nul\0x"] {
+            emit_ser(&mut out, &T::Dict(vec![(n.to_string(), T::Name(n.to_string())), ("Z".into(), T::Arr(vec![T::Name(n.to_string()), T::Int(1)]))]), "fixed_irregular_names");
+        }
+        for kind in ["name-nonascii", "real-ge-2p63", "objnum-gt-9999999", "int-int-nameR"] {
             for _ in 0..nf {
-                let t = flawed_tree(&mut r, kind);
+                let mut t = flawed_tree(&mut r, kind);
+                if kind != "name-nonascii" {
+                    ascii_names_only(&mut t); // exactly one flaw per tree
+                }
                 emit_ser(&mut out, &t, &format!("known_{kind}"));
             }
         }
